@@ -10,7 +10,13 @@ import (
 
 type Rand struct{ s uint64 }
 
-func New(seed uint64) *Rand { return &Rand{s: seed*0x9E3779B97F4A7C15 + 0x1234567} }
+func New(seed uint64) *Rand {
+	// the seed is hashed (splitmix64 finaliser) so that neighbouring seeds give unrelated streams
+	z := seed + 0x9E3779B97F4A7C15
+	z = (z ^ (z >> 30)) * 0xBF58476D1CE4E5B9
+	z = (z ^ (z >> 27)) * 0x94D049BB133111EB
+	return &Rand{s: z ^ (z >> 31)}
+}
 
 func FromEnv(salt uint64) *Rand {
 	v, _ := strconv.ParseUint(os.Getenv("VERIF_SEED"), 10, 64)
